@@ -3,7 +3,7 @@ use crate::{
     layout::{total_status, Kind, NumberOfSegments, SegmentSize, TotalStatus, DATA_REGION_OFFSET},
     manager::{
         indexed_headers,
-        layout::segment_status_table::{DATA_NOT_WRITTEN, DATA_WRITTEN},
+        layout::segment_status_table::{DATA_NOT_WRITTEN, DATA_WRITTEN, MAX_SEGMENTS},
         ManagerError, ScratchRam, Slot, SlotManager,
     },
     spi_flash::{SpiFlash, SpiFlashError},
@@ -429,8 +429,10 @@ impl<const N: usize> SlotManager<N> {
     ) -> Result<Updater, ManagerError<T::Error>> {
         self.is_reasonably_sized(segment_size, firmware_segments)?;
 
-        let parity_segments =
-            (self.slot_size.saturating_sub(DATA_REGION_OFFSET) as u32) / segment_size;
+        // The header (and the status table) cannot describe more than MAX_SEGMENTS segments
+        let parity_segments = ((self.slot_size.saturating_sub(DATA_REGION_OFFSET) as u32)
+            / segment_size)
+            .min(MAX_SEGMENTS as u32);
 
         let (mut firmware_slot, mut parity_slot) = self.alloc_slotpair(flash, scratch).await?;
         firmware_slot.set_kind(Kind::Firmware, flash).await?;
